@@ -55,6 +55,11 @@ func (k Keeper) CalculateBaseFee(ctx sdk.Context) *big.Int {
 	}
 
 	parentGasTarget := parentGasTargetBig.Uint64()
+	// A block gas limit below the elasticity multiplier yields a zero gas target,
+	// for which the EIP-1559 update is undefined: leave the base fee unchanged.
+	if parentGasTarget == 0 {
+		return new(big.Int).Set(parentBaseFee)
+	}
 	baseFeeChangeDenominator := new(big.Int).SetUint64(uint64(params.BaseFeeChangeDenominator))
 
 	// If the parent gasUsed is the same as the target, the baseFee remains
